@@ -232,10 +232,24 @@ def sequences(tier, seed, S, V):
                     for cb in bykey[b]:
                         seqs.append([ca, cb, ca])
     allc = S + V
-    for _ in range(200 if tier == 'quick' else 5000):
+    for _ in range(100 if tier == 'quick' else 2500):
         L = rnd.randrange(25, 81)
         pool = rnd.sample(allc, min(len(allc), rnd.randrange(22, 60)))
         seqs.append([rnd.choice(pool) for _ in range(L)])
+    # targeted overflow: more than 20 distinct keys of ONE cache, mostly non-raising calls (only those are cached),
+    # with revisits in between, so that every insertion beyond the limit evicts and the answers around it are compared
+    for _ in range(100 if tier == 'quick' else 2500):
+        kind = S if rnd.random() < 0.5 else V
+        ks = list(dict.fromkeys(key_of(c) for c in kind))
+        rnd.shuffle(ks)
+        seq = []
+        for k in ks[:rnd.randrange(22, len(ks) + 1)]:
+            seq.append([k[0], k[1], k[2], rnd.random() < 0.15])
+            if rnd.random() < 0.3 and seq:
+                seq.append(list(rnd.choice(seq)))
+        for _ in range(rnd.randrange(3, 12)):
+            seq.append(list(rnd.choice(kind)))
+        seqs.append(seq)
     if tier == 'thorough':
         forty = rnd.sample(allc, 40)
         for combo in itertools.product(forty, repeat=2):
